@@ -10,10 +10,12 @@
 (*   list / tuple at the top of a cell -> tuple; nested -> list            *)
 (*   dict    -> dict whose keys are strings                                *)
 (*   a field absent from a row -> None                                     *)
+(*   a reward object -> the dict {registered name: state of THAT object}   *)
 (* Values: [t |-> "int", v], [t |-> "flt", v |-> value * 10^7],            *)
 (* [t |-> "str", v], [t |-> "none"], [t |-> "nan"], [t |-> "inf"],         *)
 (* [t |-> "lst", v |-> <<..>>], [t |-> "tup", v |-> <<..>>],               *)
-(* [t |-> "dct", v |-> <<<<key, value>>, ..>>].  Expected floats are       *)
+(* [t |-> "dct", v |-> <<<<key, value>>, ..>>], [t |-> "rwd", v |-> <<class,*)
+(* args>>] (expected: [t |-> "rlog", same v]).  Expected floats are        *)
 (* [t |-> "f5", v |-> value * 10^5].                                       *)
 (* The spec is used as a generator/oracle: every initial state is one      *)
 (* input (a list of rows with ragged key sets), its successor prints       *)
